@@ -150,6 +150,14 @@ def rbStep (acc : String × RbSt) (tok : String) : String × RbSt :=
     | some (x, st') =>
       let st'' := if st.sibs.length ≤ 1 then st else rbInsert st' x
       (acc.1 ++ rbShow st'', st'')
+  | "s" =>
+    -- `lyd_unlink_siblings` of the i-th instance: `lyds_split`
+    match arg.toNat? with
+    | none => (acc.1 ++ " | R:NoInst", st)
+    | some i =>
+      if i ≥ st.sibs.length then (acc.1 ++ " | R:NoInst", st) else
+      let st' : RbSt := { st with lyds := st.lyds.split i, sibs := st.sibs.take i }
+      (acc.1 ++ rbShow st', st')
   | _ => (acc.1 ++ " | R:BadOp", st)
 
 def handle (op : String) (args : List String) : String :=
@@ -185,6 +193,16 @@ def handle (op : String) (args : List String) : String :=
       if d.sibs.isEmpty then "err Empty" else
       let t := Rb.mergeTree rbGt d.lyds.tree d.sibs (if dup then .nil else s.lyds.tree) s.sibs
       "ok" ++ rbShow { d with lyds := ⟨t, d.sibs.length + s.sibs.length⟩, sibs := Rb.inorder t }
+  | "rbd", [_variant, _desc, _yang, dscript, sscript] =>
+    -- `lyd_merge_siblings(…, LYD_MERGE_DESTRUCT)`: the source instances the target lacks, in sibling order, through `lyds_insert2`
+    let run := fun (st : RbSt) (sc : String) => (((sc.splitOn ",").filter (· ≠ "")).foldl rbStep ("", st)).2
+    let d := run ⟨Rb.Lyds.empty, [], 0⟩ dscript
+    let s := run ⟨Rb.Lyds.empty, [], d.serial⟩ sscript
+    let moved := s.sibs.filter (fun x => !(d.sibs.any (fun y => y.1 == x.1)))
+    let r := moved.foldl (fun (st : RbSt) (x : RbInst) =>
+      ({ st with lyds := Rb.Lyds.insert2 rbGt st.sibs.head? x st.lyds,
+                 sibs := st.sibs.takeWhile (fun e => !rbGt e x) ++ x :: st.sibs.dropWhile (fun e => !rbGt e x) } : RbSt)) d
+    "ok" ++ rbShow r
   | "rbleak", [] => "ok 0"
   | _, _ => "err BadOp"
 
